@@ -30,10 +30,22 @@ Step ==
                             ELSE {[trace |-> Ev.trace, step |-> Ev.seq, action |-> Req.action, type |-> Req.type,
                                    what |-> [db |-> ~(\A k \in DOMAIN obs : k \in DOMAIN exp.db /\ SEq(exp.db[k], obs[k])),
                                              ans |-> ~SameAns(exp.ans, ans)]]})
+\* two reservations written back to back on one connection: served in turn (small plain numbers)
+Min2(x, y) == IF x < y THEN x ELSE y
+Pair ==
+  /\ Ev.action = "pair"
+  /\ LET g1 == Min2(Ev.a, Ev.balance)  b1 == Ev.balance - g1
+         g2 == Min2(Ev.b, b1)          b2 == b1 - g2
+         ok == /\ Ev.ans["1"].granted = g1 /\ Ev.ans["1"].fui = (Ev.a > Ev.balance)
+               /\ Ev.ans["2"].granted = g2 /\ Ev.ans["2"].fui = (Ev.b > b1)
+               /\ Ev.left = b2
+     IN /\ viol' = viol \cup (IF ok THEN {} ELSE {[prop |-> "C07", clause |-> "pipelined_requests_served_in_turn", trace |-> Ev.trace, step |-> Ev.seq,
+                                                     sit |-> [balance |-> Ev.balance, a |-> Ev.a, b |-> Ev.b]]})
+        /\ UNCHANGED <<pre, div>>
 Finish == /\ l = Len(Trace) + 1
           /\ PrintT(<<"VF-RESULT", ToJson([consumed |-> l - 1, viol |-> viol, div |-> div])>>)
           /\ l' = l + 1 /\ UNCHANGED <<pre, viol, div>>
 TInit == l = 1 /\ pre = <<>> /\ viol = {} /\ div = {}
-TNext == (l <= Len(Trace) /\ l' = l + 1 /\ (Reset \/ Step)) \/ Finish
+TNext == (l <= Len(Trace) /\ l' = l + 1 /\ (Reset \/ Step \/ Pair)) \/ Finish
 TSpec == TInit /\ [][TNext]_tvars
 =============================================================================
